@@ -714,6 +714,10 @@ func (db *DB) createTable(op Op) Result {
 			return *r
 		}
 	}
+	if g, l := countIndexes(s.Indexes); g > MaxGSI || l > MaxLSI {
+		// DynamoDB's default quotas; no listed property demands the rejection
+		return Result{Spec: true, WeakWhy: "more indexes than DynamoDB's quotas allow"}
+	}
 	ns := *s
 	ns.Attrs = map[string]string{}
 	for k, v := range s.Attrs {
@@ -723,6 +727,23 @@ func (db *DB) createTable(op Op) Result {
 	t := &Table{Schema: ns, Items: map[string]Item{}}
 	db.Tables[s.Table] = t
 	return Result{Desc: t.describe()}
+}
+
+// DynamoDB's default quotas per table.
+const (
+	MaxGSI = 20
+	MaxLSI = 5
+)
+
+func countIndexes(ixs []IndexSchema) (global, local int) {
+	for _, ix := range ixs {
+		if ix.Global {
+			global++
+		} else {
+			local++
+		}
+	}
+	return
 }
 
 func checkIndexSchema(s *Schema, ix IndexSchema, needThroughput bool) *Result {
@@ -777,6 +798,9 @@ func (db *DB) addIndex(op Op) Result {
 			t.Schema.Indexes[i] = ix
 			return Result{Desc: t.describe()}
 		}
+	}
+	if g, _ := countIndexes(t.Schema.Indexes); ix.Global && g >= MaxGSI {
+		return Result{Spec: true, WeakWhy: "more global indexes than DynamoDB's quota allows"}
 	}
 	t.Schema.Indexes = append(t.Schema.Indexes, ix)
 	return Result{Desc: t.describe()}
